@@ -149,7 +149,7 @@ Section File.
 
   Hypothesis codec_uncompressed : Z.eqb codec E_CARQUET_COMPRESSION_UNCOMPRESSED = true -> forall b, compress b = b.
   Hypothesis codec_roundtrip : Z.eqb codec E_CARQUET_COMPRESSION_UNCOMPRESSED = false ->
-    forall b, decompress (compress b) (len b) = Ok b.
+    forall b, is_bytes b -> len b < 2 ^ 31 -> decompress (compress b) (len b) = Ok b.
   Hypothesis header_roundtrip : forall h rest, parse_header (header h ++ rest) = Ok (core_of h, len (header h)).
   Hypothesis header_small : forall h, len (header h) <= 256.
   Hypothesis header_nonempty : forall h, 0 < len (header h).
